@@ -67,6 +67,7 @@ def dispatch (line : String) : String :=
     | "unixt" => UnixT.unixLine payload
     | "vfloat" => FloatV.floatLine payload
     | "jcodec" => JCodecDrv.codecLine payload
+    | "jaccept" => JCodecDrv.acceptLine payload
     | "jeq" => JEqDrv.runLine payload
     | "enum" => JEqDrv.enumLine payload
     | _ => "bad-model"
